@@ -443,6 +443,12 @@ def run(ctx: Ctx):
     eps = [f for mn, m in model.modules.items() if mn in mods for n_, f in m.functions.items() if not n_.startswith("_")]
     ctx.floor("linearised-characterisation entry points", len(eps), 12)
     r_module(ctx, model, Effects(model), eps, prop="C14", rule="L-fresh", write_once=["pygaps.characterisation.models_thickness._LOADED"], memo=False)
+    ctx.rule("L-args: no function of pygaps.characterisation. writes in place to a value that may be its own argument (the raw routines take "
+             "arrays; numpy.asarray does not copy)")
+    from ..sites import no_inplace_on_arguments
+    no_inplace_on_arguments(ctx, load(ctx.root), "C14", "L-args", ('pygaps.characterisation.',),
+                            "the loading / pressure / reference arrays of the caller would be rescaled by the analysis - a curve analysed against itself, "
+                            "or a reference reused for a second sample, no longer recovers the generating parameters")
     from ..sites import no_memoisation
     ctx.rule("L-fresh: no caching decorator on any function of pygaps.characterisation.")
     no_memoisation(ctx, load(ctx.root), "C14", "L-fresh", ('pygaps.characterisation.',),
